@@ -278,7 +278,13 @@ def run(ck, ctx):
                         atoms[role] = I.res(I.load_attr(K.obj, src[5:], K.st, None, None), K.st)
                     elif "[" in src:
                         base, idx = src[:-1].split("[")
-                        atoms[role] = I.mk("Subscript", (I.res(loc[base], K.st), I.res(loc[idx], K.st)))
+                        if idx in loc:
+                            ixn = I.res(loc[idx], K.st)
+                        else:           # a constant slice  a:b
+                            lo_, hi_ = (idx.split(":") + [""])[:2]
+                            ixn = I.mk("Slice", (I.const(int(lo_) if lo_ else None), I.const(int(hi_) if hi_ else None),
+                                                 I.const(None)))
+                        atoms[role] = ("sub", I.res(loc[base], K.st), ixn)
                     else:
                         atoms[role] = loc[src]
                 if which.startswith("local:"):
@@ -286,6 +292,13 @@ def run(ck, ctx):
                 else:
                     val = ret if which == "return" else I.elem(ret, int(which[7:-1]))
                 val = I.res(val, K.st)          # arrays updated in place: their final version
+                for role, a_ in list(atoms.items()):
+                    if isinstance(a_, tuple):
+                        # a sliced / indexed view is its own object: take the occurrence in the value, if there is one
+                        _t, b_, ix_ = a_
+                        hit = [x for x in walk([val]) if x.op == "Subscript" and g.vn(x.args[0]) == g.vn(b_) and
+                               g.vn(x.args[1]) == g.vn(ix_)]
+                        atoms[role] = hit[0] if hit else I.mk("Subscript", (b_, ix_))
                 P = facet(atoms)
                 # the roles are matched by value (a parameter, its current version and a re-gathered copy are one)
                 keys = {g.vn(n) for n in atoms.values()} | {g.vn(I.res(n, K.st)) for n in atoms.values()}
@@ -301,6 +314,61 @@ def run(ck, ctx):
                 n_f += 1
                 ck.ob("R06.7", f"{what}: {qual.split('.')[-1]} == {ref}", ok, val, qual, detail,
                       construct=f"{qual}: {what}")
+        # the per-step values integrated along the path (identified as the arguments of the cumulative sums)
+        def per_step():
+            cs_ = [n for n in cone if (is_ext_call(n, "numpy.cumsum") or (n.op == "MCall" and n.attr[0] == "cumsum"))
+                   and n.fn is not None and n.fn.qualname.startswith("CphotAng.")]
+            args_ = {}
+            for n in cs_:
+                x = n.args[1] if n.op == "Call" else n.args[0]
+                for _ in range(2):
+                    if is_ext_call(x, "numpy.flip", "numpy.flipud") and len(x.args) == 2:
+                        x = x.args[1]
+                    elif x.op == "Subscript" and x.args[1].op == "Slice" and x.args[1].args[2].op == "Const" and \
+                            x.args[1].args[2].attr == -1:
+                        x = x.args[0]
+                args_[g.vn(x)] = x
+            gram = log_of("CphotAng.grammage")[0]
+            oz = log_of("CphotAng.ozone_losses")[0]
+            rho = I.res(I.elem(gram[3], 1), K.st)
+            T = I.res(oz[3], K.st)
+            zst = [n for n in cone if n.op == "Call" and n.args and n.args[0].op == "Ext" and
+                   n.args[0].attr.endswith(".zsteps")]
+            if not zst:
+                raise AnalysisError("the C++ stepper call is not in the result's cone")
+            dz = I.elem(zst[0], 1)
+            dL = I.res(I.load_attr(K.obj, "dL", K.st, None, None), K.st)
+
+            def decide(what, ref, roles, slices=()):
+                hit_ok, detail = False, ""
+                for x in args_.values():
+                    atoms = dict(roles)
+                    for role, (b_, lo_, hi_) in slices:
+                        cand = [y for y in walk([x]) if y.op == "Subscript" and g.vn(y.args[0]) == g.vn(b_) and
+                                y.args[1].op == "Slice" and
+                                [a_.attr if a_.op == "Const" else "?" for a_ in y.args[1].args] == [lo_, hi_, None]]
+                        if not cand:
+                            break
+                        atoms[role] = cand[0]
+                    else:
+                        P = facet(atoms)
+                        keys = {g.vn(n) for n in atoms.values()}
+                        P.opaque = (lambda n, _k=keys, _o=P.opaque: _o(n) or g.vn(n) in _k)
+                        try:
+                            if P.equal(_bare(P.of(x)), P.ref(ref, {r_: P.of(n) for r_, n in atoms.items()})):
+                                hit_ok = True
+                                break
+                            detail = P.show(P.of(x))[:160]
+                        except Exception as ex:       # noqa: BLE001
+                            detail = f"{type(ex).__name__}: {ex}"
+                ck.ob("R06.7", f"{what}: one of the per-step arrays integrated along the path == {ref}", hit_ok,
+                      next(iter(args_.values())) if args_ else den, "CphotAng.slant_depth",
+                      detail or f"{len(args_)} integrated array(s)", construct=f"CphotAng.slant_depth: {what}")
+            decide("grammage of one step (density x step length, km -> cm)", "r * dL * 100000", {"r": rho, "dL": dL})
+            decide("ozone traversed in one step (difference of the column above its ends, per vertical km, times the "
+                   "step length)", "(a - b) / dz * dL", {"dz": dz, "dL": dL},
+                   slices=(("a", (T, None, -1)), ("b", (T, 1, None))))
+        per_step()
         # the stored per-step arrays of valid_arrays
         for fi, site, loc, ret, pc in log_of("CphotAng.valid_arrays")[:1]:
             names = ["zs", "delgram", "ZonZ", "ThetPrpA", "AirN", "s", "RN", "e2hill"]
@@ -485,11 +553,29 @@ def run(ck, ctx):
             val = I.res(val, K.st)
             pr = Pred(I)
             masks = []
-            for n_ in walk([val]):
+            stop = {z.id}
+            if extra_roles:
+                for src in extra_roles.values():
+                    try:
+                        stop.add(src(loc).id)
+                    except Exception:       # noqa: BLE001
+                        pass
+            seen_, stack_ = set(), [val]
+            while stack_:               # the piecewise structure of the result itself, not of its inputs
+                n_ = stack_.pop()
+                if n_.id in seen_ or n_.id in stop:
+                    continue
+                seen_.add(n_.id)
                 if n_.op == "Scatter":
-                    masks.append(n_.args[1])
+                    m_ = n_.args[1]
+                    if m_.op == "Tuple" and m_.args and all(
+                            (a_.op == "Slice" and all(x.op == "Const" and x.attr is None for x in a_.args)) or
+                            (a_.op == "Const" and a_.attr is Ellipsis) for a_ in m_.args[1:]):
+                        m_ = m_.args[0]
+                    masks.append(m_)
                 elif is_ext_call(n_, "numpy.where") and len(n_.args) == 4:
                     masks.append(n_.args[1])
+                stack_.extend(n_.args)
             atoms = []
             for m_ in masks:
                 for k_ in pr.atoms_of(pr.formula(m_)):
@@ -532,9 +618,12 @@ def run(ck, ctx):
                     P = PolyFacet(I, opaque_ids={n_.id for n_ in roles.values()}, gather_transparent=True)
                     P.opaque = (lambda n_, _k=keys, _o=P.opaque: _o(n_) or g.vn(n_) in _k)
                     P.cell = (pr, env)
+                    P.canon = lambda n_: ("pi",) if (n_.op in ("State", "Attr") and n_.attr == "pi") else None
                     try:
                         got = P.of(val)
-                        same = P.equal(_bare(got), P.ref(ref, {k_: P.of(n_) for k_, n_ in roles.items()}))
+                        renv = {k_: P.of(n_) for k_, n_ in roles.items()}
+                        renv["pi"] = P.of(I.res(I.load_attr(K.obj, "pi", K.st, None, None), K.st))
+                        same = P.equal(_bare(got), _ref_with_pi(P, ref, renv))
                     except Exception as ex:       # noqa: BLE001
                         ok, detail = None, f"{type(ex).__name__}: {ex}"
                         break
@@ -555,6 +644,49 @@ def run(ck, ctx):
                    (25, None, "0.000005*3.344/sqrt(28.920 + 3.344*z)*" + X3)],
                   "air density rho(z) = -1e-5 dX/dz (g cm^-3)")
 
+        # aerosol transmission (Elterman, 550 nm optical depth table in 1 km steps, linear within a step)
+        def aerosol_roles():
+            cs_ = [c for c in I.call_log if c[0].qualname == "CphotAng.aerosol_model"]
+            if not cs_:
+                raise AnalysisError("CphotAng.aerosol_model is not reached from the kernel")
+            ret_ = I.res(cs_[0][3], K.st)
+            tabs = {nm: I.res(I.load_attr(K.obj, nm, K.st, None, None), K.st) for nm in ("aOD55", "dfaOD55")}
+            got = {}
+            for nm, t_ in tabs.items():
+                subs_ = {(g.vn(n_.args[0]), g.vn(n_.args[1])): n_ for n_ in walk([ret_]) if n_.op == "Subscript" and
+                         n_.args[0] is t_ and n_.fn is not None and n_.fn.qualname == "CphotAng.aerosol_model"}
+                ck.ob("R06.9", f"aerosol transmission: one look-up of the {nm} table", len(subs_) == 1, ret_,
+                      "CphotAng.aerosol_model", f"{len(subs_)} distinct look-up(s)")
+                if len(subs_) != 1:
+                    return None
+                got[nm] = next(iter(subs_.values()))
+            ia, ib = got["aOD55"].args[1], got["dfaOD55"].args[1]
+            zloc = I.res(cs_[0][2]["z"], K.st)
+
+            def int_part_of_z(ix):
+                n_ = ix
+                for _ in range(4):
+                    if n_.op == "Call" and len(n_.args) == 2 and n_.args[0].op == "Ext" and n_.args[0].attr in (
+                            "numpy.int32", "numpy.int64", "numpy.intp", "numpy.floor", "numpy.trunc"):
+                        n_ = n_.args[1]
+                    elif n_.op == "MCall" and n_.attr[0] == "astype" and n_.args:
+                        n_ = n_.args[0]
+                    elif n_.op == "Subscript" and n_.args[0] is zloc:
+                        n_ = n_.args[0]
+                    else:
+                        break
+                return n_ is zloc and n_ is not ix
+            ck.ob("R06.9", "aerosol transmission: both tables are read at the integer part of the altitude (1 km steps)",
+                  g.same(ia, ib) and int_part_of_z(ia), got["aOD55"], "CphotAng.aerosol_model", g.show(ia, 3))
+            return {"O": lambda l: got["aOD55"], "F": lambda l: got["dfaOD55"], "i": lambda l: ia,
+                    "B": lambda l: I.res(I.load_attr(K.obj, "aBetaF", K.st, None, None), K.st),
+                    "p": lambda l: I.res(l["ThetPrpA"], K.st)}
+        ar = aerosol_roles()
+        if ar is not None:
+            piecewise("CphotAng.aerosol_model", None, "z",
+                      [(None, 30, "exp(-(O - (z - i)*F) * B / cos(pi/2 - p))"), (30, None, "1")],
+                      "aerosol transmission exp(-OD(z) x wavelength factor / cos(zenith angle of the ray))",
+                      extra_roles=ar)
         if True:
             piecewise("CphotAng.ozone_losses", None, "z",
                       [(None, 5.35, "310 + ((5.35 - z)/5.35)*15"), (100, None, "0.1"),
@@ -674,7 +806,7 @@ def run(ck, ctx):
 MODEL_METHODS = ("CphotAng.valid_arrays", "CphotAng.tracklen", "CphotAng.e0", "CphotAng.cherenkov_threshold_angle",
                  "CphotAng.sphoton_yeild", "CphotAng.d_to_det", "CphotAng.cherenkov_area", "CphotAng.theta_view",
                  "CphotAng.theta_prop", "CphotAng.photon_sum", "CphotAng.aerosol_model", "CphotAng.grammage",
-                 "CphotAng.ozone_losses")
+                 "CphotAng.ozone_losses", "CphotAng.slant_depth")
 
 # Reference formulas of the shower model named by the property (sources: K. Greisen, Prog. Cosmic Ray Phys. 3
 # (1956) - longitudinal profile N(t) = 0.31 / sqrt(y) exp[t (1 - 1.5 ln s)], s = 3 t / (t + 2 y), y = ln(E / Ec),
